@@ -38,21 +38,69 @@ fn direct(kind: usize, total: usize, fperiod: usize) -> SpeechGenerator {
     SpeechGenerator::new(fperiod, vocoder, sp, lf0, lpf)
 }
 
+/// Engine-backed generators on a rendered voice: utterances (label index lists) whose frame count is known.
+pub struct EngineGens {
+    engine: jbonsai::Engine,
+    by_total: std::collections::HashMap<usize, Vec<jlabel::Label>>,
+}
+impl EngineGens {
+    pub fn new(voice_path: &str, labels_path: &str) -> Self {
+        let engine = jbonsai::Engine::load(&[voice_path]).unwrap_or_else(|e| die(&format!("{}: {}", voice_path, e)));
+        let table = crate::c04::parse_labels(labels_path);
+        let fp = engine.condition.get_fperiod();
+        let mut by_total = std::collections::HashMap::new();
+        by_total.insert(0usize, Vec::new());
+        // single labels, pairs and triples until totals 1, 2, 3, 5 are all realised
+        let n = table.len();
+        let mut cands: Vec<Vec<usize>> = (0..n).map(|i| vec![i]).collect();
+        for i in 0..n { for j in 0..n.min(6) { cands.push(vec![i, j]); } }
+        for i in 0..n.min(6) { for j in 0..n.min(6) { for k in 0..n.min(4) { cands.push(vec![i, j, k]); } } }
+        for c in cands {
+            let ls: Vec<jlabel::Label> = c.iter().map(|i| table[*i].clone()).collect();
+            if let Ok(Ok(w)) = guarded(|| engine.synthesize(ls.clone())) {
+                by_total.entry(w.len() / fp).or_insert(ls);
+            }
+            if [1usize, 2, 3, 5].iter().all(|t| by_total.contains_key(t)) {
+                break;
+            }
+        }
+        EngineGens { engine, by_total }
+    }
+    fn make(&self, total: usize) -> Option<SpeechGenerator> {
+        self.by_total.get(&total).and_then(|ls| self.engine.generator(ls.clone()).ok())
+    }
+    fn oneshot(&self, total: usize) -> Option<Vec<f64>> {
+        self.by_total.get(&total).and_then(|ls| self.engine.synthesize(ls.clone()).ok())
+    }
+}
+
 fn frame_eq(buf: &[f64], reference: &[f64], k: usize, fp: usize) -> bool {
     (k + 1) * fp <= reference.len() && bits_eq(&buf[..fp], &reference[k * fp..(k + 1) * fp])
 }
 
 /// Replay one history; returns None if every observation matched, else (step index, key, message).
-fn replay_case(case: &Value, kind: usize, fp: usize) -> Option<(usize, String, String)> {
+fn replay_case(case: &Value, kind: usize, fp: usize, eg: Option<&EngineGens>) -> Option<(usize, String, String)> {
     let total = vu(&case["total"]);
-    let reference = match guarded(|| direct(kind, total, fp).generate_all()) {
-        Ok(r) => r,
+    // kind 3: Engine::generator / Engine::synthesize on a rendered voice (fp is the voice's own frame period)
+    let (fp, mk): (usize, Box<dyn Fn() -> Option<SpeechGenerator>>) = if kind == 3 {
+        let eg = eg.unwrap();
+        (eg.engine.condition.get_fperiod(), Box::new(move || eg.make(total)))
+    } else {
+        (fp, Box::new(move || Some(direct(kind, total, fp))))
+    };
+    let reference = match guarded(|| if kind == 3 { eg.unwrap().oneshot(total) } else { Some(direct(kind, total, fp).generate_all()) }) {
+        Ok(Some(r)) => r,
+        Ok(None) => return None, // this total is not realisable on the rendered voice
         Err(m) => return Some((0, format!("oneshot:panic:{}", m), m)),
     };
     if reference.len() != total * fp {
         return Some((0, "oneshot:len".into(), format!("one-shot length {} != {}", reference.len(), total * fp)));
     }
-    let mut gen = Some(direct(kind, total, fp));
+    let mut gen = match guarded(|| mk()) {
+        Ok(Some(g)) => Some(g),
+        Ok(None) => return None,
+        Err(m) => return Some((0, format!("generator:panic:{}", m), m)),
+    };
     for (j, st) in va(&case["hist"]).iter().enumerate() {
         let act = vs(&st["act"]);
         let ret = vu(&st["ret"]);
@@ -111,8 +159,12 @@ fn replay_case(case: &Value, kind: usize, fp: usize) -> Option<(usize, String, S
     None
 }
 
-pub fn replay(cases_path: &str, out_path: &str) {
+pub fn replay(cases_path: &str, out_path: &str, voice: Option<&String>, labels: Option<&String>) {
     let cases = read_jsonl(cases_path);
+    let eg = match (voice, labels) {
+        (Some(v), Some(l)) => Some(EngineGens::new(v, l)),
+        _ => None,
+    };
     let mut out = Out::create(out_path);
     let mut failed = 0usize;
     let mut steps = 0usize;
@@ -122,9 +174,15 @@ pub fn replay(cases_path: &str, out_path: &str) {
         for kind in 0..3 {
             for fp in [1usize, 5] {
                 runs += 1;
-                if let Some((j, key, msg)) = replay_case(case, kind, fp) {
+                if let Some((j, key, msg)) = replay_case(case, kind, fp, None) {
                     return (runs, Some((j, kind, fp, key, msg)));
                 }
+            }
+        }
+        if eg.is_some() {
+            runs += 1;
+            if let Some((j, key, msg)) = replay_case(case, 3, 0, eg.as_ref()) {
+                return (runs, Some((j, 3, 0, format!("engine:{}", key), msg)));
             }
         }
         (runs, None)
